@@ -263,7 +263,8 @@ func tmsAddrTrace(args []string) int {
 	}
 	sets = append(sets, setT{"syn-bottomleft", newSynGrid(2, 6, -1024.5, 2048.25, "bottomLeft", 4).tms}, setT{"syn-topleft", newSynGrid(4, 8, 100, 100, "topLeft", 3).tms},
 		setT{"syn-swapped-bottomleft", newSynGridAxes(1, 4, 1000, 2000.5, "bottomLeft", 3, true).tms},
-		setT{"syn-swapped-topleft", newSynGridAxes(2, 5, -300.25, 64, "topLeft", 3, true).tms})
+		setT{"syn-swapped-topleft", newSynGridAxes(2, 5, -300.25, 64, "topLeft", 3, true).tms},
+		setT{"syn-declared-bbox", newSynGridFull(1, 4, 10, 266, "topLeft", 3, false, true).tms})
 	for _, s := range sets {
 		for _, id := range sortedIDs(s.t) {
 			tm := s.t.TileMatrices[id]
